@@ -15,4 +15,11 @@ for p in C01 C02 C03 C04 C05 C06 C07 C10 C11 C20; do
         echo "selftest $p: $a"
     fi
 done
+# shim fidelity: rayon-sim against the real rayon on the call shapes of the tree
+if (cd /verif/sim && cargo test -p rayon@1.10.0 --release --offline 2>&1 | grep -q "test result: ok. 3 passed"); then
+    echo "selftest rayon-sim conformance: ok"
+else
+    echo "HARNESS-ERROR: selftest: rayon-sim conformance test failed"
+    rc=2
+fi
 exit $rc
